@@ -165,8 +165,12 @@ func (k Keeper) AllocateSellingCoin(ctx context.Context, auction types.AuctionI,
 		ioCoins[bidder] = inout
 	}
 
-	// Send all inputs
-	for _, inout := range ioCoins {
+	// Send all inputs in the sorted order of bidders
+	for _, bidder := range bidders {
+		inout, ok := ioCoins[bidder]
+		if !ok {
+			continue
+		}
 		if err := k.bankKeeper.InputOutputCoins(ctx, inout.input, inout.outputs); err != nil {
 			return err
 		}
@@ -271,8 +275,12 @@ func (k Keeper) RefundPayingCoin(ctx context.Context, auction types.AuctionI, mI
 		ioCoins[bidder] = inout
 	}
 
-	// Send all inputs.
-	for _, inout := range ioCoins {
+	// Send all inputs in the sorted order of bidders.
+	for _, bidder := range bidders {
+		inout, ok := ioCoins[bidder]
+		if !ok {
+			continue
+		}
 		if err := k.bankKeeper.InputOutputCoins(ctx, inout.input, inout.outputs); err != nil {
 			return err
 		}
